@@ -46,6 +46,8 @@ def cells(tier):
     plain2 = lambda op, story_k, tk, sk, nk: story_k in (None, 'existing') and tk in (None, 'existing', 'unknown') and \
         (sk is None or sk in (['existing'], ['existing', 'existing'], ['existing', 'unknown'])) and (nk is None or nk == ['fresh'])
     out += make_cells(PID, 'exc', tier, N=3, thin=plain2, extra={'prehist': True}, suffix='after-roReplace')
+    # ... and after a series of refused messages (what a non-strict collection merge leaves behind)
+    out += make_cells(PID, 'exc', tier, N=3, thin=plain2, extra={'prefail': True}, suffix='after-refused-messages')
     # a story / item with a blank ID in the MIDDLE of the container (between the elements a multi-ID message names)
     multi = lambda op, story_k, tk, sk, nk: story_k in (None, 'existing') and tk in (None, 'existing', 'blank') and \
         (sk is None or sk in (['existing', 'existing'], ['existing', 'unknown'], ['existing'])) and (nk is None or nk == ['fresh'])
